@@ -972,3 +972,53 @@ Proof.
   exists [105;100], (VPrim (PInt 5)), [59;105;100;61;53], [37;51;66;105;100;37;51;68;53].
   repeat split; vm_compute; reflexivity.
 Qed.
+
+(* ------------------------------------------------------------------------------------------------ *)
+(* F. the empty-object rule of serialize_case is pointwise                                           *)
+(* ------------------------------------------------------------------------------------------------ *)
+Theorem requests_params_pointwise q : requests_params q = map blank_empty_obj q.
+Proof.
+  unfold requests_params. destruct (existsb (fun kv => is_empty_obj (snd kv)) q) eqn:E.
+  - apply map_ext. intros [k v]. unfold blank_empty_obj. cbn [fst snd]. destruct (is_empty_obj v); reflexivity.
+  - symmetry. rewrite <- (map_id q) at 2. apply map_ext_in. intros [k v] Hin. unfold blank_empty_obj. cbn [fst snd].
+    destruct (is_empty_obj v) eqn:Ev; [|reflexivity].
+    assert (X : existsb (fun kv => is_empty_obj (snd kv)) q = true) by (apply existsb_exists; exists (k, v); split; assumption).
+    congruence.
+Qed.
+
+Lemma requests_params_keys q : map fst (requests_params q) = map fst q.
+Proof. rewrite requests_params_pointwise, map_map. reflexivity. Qed.
+
+Lemma d_get_map_snd (g : value -> value) k (q : item) :
+  d_get k (map (fun kv => (fst kv, g (snd kv))) q) = omap g (d_get k q).
+Proof.
+  induction q as [|[k' v] q IH]; [reflexivity|]. cbn [map d_get fst snd]. destruct (str_eqb k k'); [reflexivity | exact IH].
+Qed.
+
+(* every parameter of the query is sent as it is, whatever its neighbours are; only an empty object becomes the empty string *)
+Theorem requests_params_lookup q k :
+  d_get k (requests_params q) = omap (fun v => if is_empty_obj v then sval [] else v) (d_get k q).
+Proof. rewrite requests_params_pointwise. unfold blank_empty_obj. apply d_get_map_snd. Qed.
+
+Example requests_params_nonvacuous :
+  requests_params [([111], VObj []); ([112], VPrim (PInt 0)); ([98], VPrim (PBool false)); ([105], VArr []); ([115], VPrim (PStr []))]
+  = [([111], sval []); ([112], VPrim (PInt 0)); ([98], VPrim (PBool false)); ([105], VArr []); ([115], VPrim (PStr []))].
+Proof. reflexivity. Qed.
+
+(* ------------------------------------------------------------------------------------------------ *)
+(* G. coverage phase: the template is re-quoted by every case                                         *)
+(* ------------------------------------------------------------------------------------------------ *)
+Lemma always_safe_lt b : always_safe b = true -> b < 128.
+Proof. intros H. apply always_safe_props in H. lia. Qed.
+
+Lemma safe_utf8 s : forallb always_safe s = true -> utf8_encode s = Some s.
+Proof.
+  intros H. unfold utf8_encode. rewrite forallb_forall in H.
+  assert (E : forallb is_scalar s = true).
+  { apply forallb_forall. intros c Hc. apply H in Hc. apply always_safe_lt in Hc. unfold is_scalar, is_surrogate. lia. }
+  rewrite E. f_equal. induction s as [|c s IH]; [reflexivity|]. cbn [flat_map].
+  rewrite IH by (intros x Hx; apply H; right; exact Hx; fail).
+  - unfold utf8_cp. assert (c < 128) by (apply always_safe_lt, H; left; reflexivity).
+    replace (c <? 128) with true by lia. reflexivity.
+  - apply forallb_forall. intros x Hx. apply E'. 
+Qed.
